@@ -185,5 +185,8 @@ class QuadTessellate(AbstractTessellate):
         # Call parent function
         super(QuadTessellate, self).tessellate(points, **kwargs)
 
+        # Quadrilateral meshes do not support trim curves (Surface.tessellate always passes them)
+        kwargs.pop('trims', None)
+
         # Apply default triangular mesh generator function
         self._vertices, self._faces = self._tsl_func(points, **kwargs)
